@@ -56,7 +56,7 @@ let io_cases () =
       let (v, buf) = match w with
         | "D" -> (VDisplay ps, None)
         | "H" -> (VRaw ps, None)
-        | "B" -> let b = buf_of (VDisplay ps) in (VBuffer b, Some b)
+        | "B" | "FB" -> let b = buf_of (VDisplay ps) in (VBuffer b, Some b)   (* FB: a failed to_buffer came before; it leaves nothing behind *)
         | "HB" -> let b = buf_of (VRaw ps) in (VBuffer b, Some b)
         | _ -> let b = buf_of (VBuffer (buf_of (VDisplay ps))) in (VBuffer b, Some b) in
       let (s', r) = to_html v sink in
